@@ -30,6 +30,9 @@ def build(a, rnd):
         m["cons"].append({"lb": None, "ub": 4, "lin": [], "expr": O(15, O(1, V(0), V(1)))})
     if "logic" in a["extra"]:
         m["lcons"].append(O(20, O(28, V(0), N(1)), O(28, V(2), N(1))))
+    if "logic3" in a["extra"]:      # two more logical constraints (three in all)
+        m["lcons"].append(O(20, O(28, V(1), N(2)), O(23, V(2), N(0))))
+        m["lcons"].append(O(20, O(23, V(0), N(8)), O(28, V(1), N(1))))
     if "ite" in a["extra"]:
         m["cons"].append({"lb": None, "ub": 4, "lin": [], "expr": O(35, O(28, V(0), N(1)), V(1), V(2))})
     if "max" in a["extra"]:
@@ -73,6 +76,80 @@ def script(a, rnd):
     if a["tr"] in ("iis", "all"):
         txt += "variis %s\nconiis 3 %s\n" % (" ".join(map(str, ans["variis"])), " ".join(map(str, ans["coniis"])))
     return ans, txt, st
+
+
+SHARED_F = {"abs": (lambda: O(15, O(1, V(0), V(1))), "AbsConstraint"), "max": (lambda: O(12, V(0), V(1)), "MaxConstraint"),
+            "min": (lambda: O(11, V(0), V(2)), "MinConstraint"), "exp": (lambda: O(44, V(2)), "ExpConstraint")}
+SHARED_G = (lambda: O(15, O(1, V(1), V(2))), "AbsConstraint")        # another function, never flagged (for f = abs: max)
+
+
+def shared_stage(tier, exe, v, d):
+    """Stage 3 (Shared.tla): a functional expression shared by several original constraints; the IIS flag of its one
+    flat constraint has to come back to every constraint that contains it and to no other."""
+    sd = os.path.join(SPECS, "valcvt")
+    gs = tlc("GenShared", "GenShared.cfg", cwd=sd, workers=NPROC)
+    tlc_must_pass(gs, "GenShared")
+    gen = sorted(printed_json(gs, "CASE"), key=lambda c: json.dumps(c, sort_keys=True))
+    if len(gen) != 84:
+        raise Broken("GenShared produced %d cases" % len(gen))
+    runs0 = []
+    for j, c in enumerate(gen):
+        fexpr, ftype = SHARED_F[c["f"]]
+        gexpr, gtype = SHARED_G if c["f"] != "abs" else (lambda: O(12, V(1), V(2)), "MaxConstraint")
+        m = {"vars": [{"lb": 0, "ub": 10}, {"lb": 0, "ub": 10}, {"lb": -5, "ub": 5}], "cons": [], "lcons": [],
+             "objs": [{"max": False, "lin": [[0, 1], [1, 1], [2, 1]]}]}
+        for k in range(3):
+            e = None
+            if c["uses"][k]:
+                e = fexpr()
+            if c["g"][k]:
+                e = gexpr() if e is None else O(0, e, gexpr())
+            m["cons"].append({"lb": None, "ub": 30 + k, "lin": BODIES[k], "expr": e})
+        cm, perm, corder = nlgen.canonical(m)
+        runs0.append({"id": j, "model": cm, "opts": ["alg:iisfind=1", "sol:chk:mode=0", "cvt:expcones=0"], "answer": "status 200 scripted\n", "c": c,
+                      "ftype": ftype, "corder": corder})
+    first = drv.run_cases(exe, PID + "s0", runs0)
+    runs1 = []
+    for r0, o in zip(runs0, first):
+        cons = [e for e in o["rec"] if e["e"] == "Con"]
+        bygrp = {}
+        for e in cons:
+            bygrp.setdefault(e["grp"], []).append(1 if e["type"] == r0["ftype"] else 0)
+        nfl = sum(sum(x) for x in bygrp.values())
+        txt = "status 200 scripted\nvariis %s\n" % " ".join("0" for _ in range(24))
+        for g_, flags in sorted(bygrp.items()):
+            txt += "coniis %d %s\n" % (g_, " ".join("3" if f_ else "0" for f_ in flags))
+        runs1.append(dict(r0, answer=txt, nflagged=nfl))
+    second = drv.run_cases(exe, PID + "s1", runs1)
+    lines = []
+    for r1, o in zip(runs1, second):
+        s_ = o["sol"]
+        if o["hang"] or o["rc"] != 0 or not s_:
+            lines.append({"e": "Crash", "id": r1["id"], "rc": o["rc"], "stderr": o["stderr"][-200:]})
+            continue
+        iis = [0, 0, 0]
+        for sf in s_["suffixes"]:
+            if sf["name"] == "iis" and (sf["kind"] & 3) == 1:
+                for pos in range(3):                       # file position -> original row
+                    iis[r1["corder"][pos]] = int(sf["vals"].get(pos, 0))
+        lines.append({"e": "Run", "id": r1["id"], "c": r1["c"], "iis": iis, "nflagged": r1["nflagged"]})
+    tp = os.path.join(d, "shared-%s.ndjson" % tier)
+    with open(tp, "w") as f:
+        for e in lines:
+            f.write(json.dumps(e) + "\n")
+    ok, res = validate_trace("TraceShared", "TraceShared.cfg", tp, cwd=sd)
+    done = printed_json(res, "DONE")
+    if len(done) != 1 or done[0]["n"] != len(lines):
+        raise Broken("TraceShared did not consume the trace\n" + res.out[-2000:])
+    for b in printed_json(res, "BAD"):
+        r1 = runs1[b["id"]]
+        c = r1["c"]
+        for w in sorted(b["wrong"]):
+            v.violation("shared-%s:%s:%s" % (w, c["f"], "".join("u" if u else "-" for u in c["uses"])),
+                        "%s(..) in rows %s (another function in rows %s): the IIS flag of its flat constraint came back as .iis = %s (%s)"
+                        % (c["f"], [k for k in range(3) if c["uses"][k]], [k for k in range(3) if c["g"][k]], lines[b["line"] - 1].get("iis"), w),
+                        {"case": c, "model": r1["model"], "answer": r1["answer"], "observed": lines[b["line"] - 1]})
+    return {"cases": len(gen), "states": gs.distinct + res.distinct, "transitions": gs.generated + res.generated, "bad": len(printed_json(res, "BAD"))}
 
 
 def ival(x):
@@ -251,13 +328,14 @@ def run(tier):
             v.violation("%s:%s:%s:%s:%s:step%s" % (w[0], "-".join(a.get("rows", [])), a.get("extra"), a.get("rmode"), hs, w[1]),
                         "direct transfers %s on the model rows %s extra=%s ranges=%s: %s in step %s at item %s" % (hs, a.get("rows"), a.get("extra"), a.get("rmode"), w[0], w[1], w[2]),
                         {"case": a, "history": hr["xs"] if hr else None, "answer": hr["answer"] if hr else None})
+    shared = shared_stage(tier, exe, v, outdir(PID))
     rcode, nnew = v.finish()
     if rcode == 0 and not all(seen_aspects.get(k) for k in ("out.hasBasis", "out.hasIIS", "out.hasDual", "out.hasPrimal", "got.hasStart", "got.hasPri", "got.hasBasis", "got.hasLazy", "got.hasDualStart")):
         raise Broken("some transfer kind was never observed: %s" % seen_aspects)
     write_evidence(PID, tier, {
         "states": mc.distinct + g.distinct + gh.distinct + sum(r.distinct for r in res + res2), "transitions": mc.generated + g.generated + sum(r.generated for r in res),
         "design_check": {"module": "MCValCvt", "distinct_states": mc.distinct, "self_test_without_cleanup": neg.violated},
-        "traces_validated_against_impl": len(recs) + len(hrecs), "direct_transfer_histories": len(hrecs), "rejected_histories": nhbad, "samples": [cases[0]["a"], cases[-1]["a"], {k: recs[0].get(k) for k in ("ocons", "rows", "out", "got")}],
+        "traces_validated_against_impl": len(recs) + len(hrecs), "direct_transfer_histories": len(hrecs), "shared_expression_stage": shared, "rejected_histories": nhbad, "samples": [cases[0]["a"], cases[-1]["a"], {k: recs[0].get(k) for k in ("ocons", "rows", "out", "got")}],
         "evaluations": len(recs), "generated_cases_total": len(gen), "rejected_runs": nbad, "transfers_observed": seen_aspects,
         "explanation": "TLC enumerates row-kind sequences x extras x range handling x transfer sets; each sampled case is run through the real driver with index-coded scripted primal/dual and seeded basis/IIS vectors (longer than the model), and input suffixes / warm start; TLC locates each original linear constraint's image among the delivered rows structurally and decides every value returned or passed on",
         "violations_new": nnew,
